@@ -808,6 +808,11 @@ impl ReplDriver {
                 }
             }
         }
+        // more events than the queue holds while nobody drains it
+        for k in 0..40u64 {
+            self.plain_w(&mut p, &Op::Get(nblocks + 3 + k));
+            self.plain_r(&mut p, &Op::Get(nblocks + 3 + k));
+        }
         let len = p.w.len();
         let bytes: u64 = p.wbytes.iter().sum();
         let bl = boundary(len);
